@@ -288,6 +288,7 @@ fn one(seed: u64, i: usize, cell: &Cell, inst: u64) -> Value {
             let mut other_engine = false;
             let mut as_kind = *kind;
             let mut applicable = true;
+            let mut variant_flips = 0;
             for TOp { op, a, b } in &cell.ops {
                 match (op.as_str(), a.as_str()) {
                     ("replace", "engine") => other_engine = true,
@@ -296,9 +297,17 @@ fn one(seed: u64, i: usize, cell: &Cell, inst: u64) -> Value {
                         let n = ops::random_bytes(&mut rng, 32);
                         pser[1..33].copy_from_slice(&n);
                     }
+                    // the variant tag is rewritten to another *valid* variant (a random mask would
+                    // almost always just break deserialization); resolved after the loop
+                    ("flip", "variant") => variant_flips += 1,
                     ("flip", r) => applicable &= ops::flip(&mut pser[region(r)], *b, &mut rng),
                     (o, x) => vrt::die(&format!("wrap: unknown op {o} {x}")),
                 }
+            }
+            if variant_flips > 0 {
+                // prefer the variant of the kind the key is unwrapped as (the attacker's best choice)
+                let want = if as_kind != *kind { variant_index(as_kind) } else { (variant_index(kind) + 1 + rng.below(5) as usize) % 6 };
+                pser[45] = want as u8;
             }
             if !applicable {
                 drift += 1;
